@@ -68,6 +68,13 @@ def run(rep, work, tier, seed, only=None):
             rep.violation(key, '%s: after run(%d) (total %d) n_runs and list lengths are %s' % (b['tag'], bad[0], bad[2], bad[1]),
                           {'setup': b['tag'], 'run_calls': b['ks'], 'lengths_after_each_call': b['lens']})
             continue
+        badp = next((pt for pt in b.get('partials', []) if pt[1] != pt[4] or pt[2] != pt[0] - pt[4]
+                     or abs(pt[3] - (pt[4] / pt[0] if pt[0] else 0.0)) > 1e-15), None)
+        if badp:
+            rep.violation(key, '%s: after %d trials of which %d failed, get_results() reports n_fail=%d n_success=%d p_est=%r'
+                          % (b['tag'], badp[0], badp[4], badp[1], badp[2], badp[3]),
+                          {'setup': b['tag'], 'run_calls': b['ks'], 'summaries_after_each_call': b['partials']})
+            continue
         rec = next(r_ for r_ in data['records'] if r_['tag'] == b['tag'] and r_['decoder'] == b['decoder'])
         same = ([t['effective'] for t in rec['trials']] == b['sim_eff'] and [t['success'] for t in rec['trials']] == b['sim_succ']
                 and [t['codespace'] for t in rec['trials']] == b['sim_cs'])
